@@ -263,3 +263,73 @@ func H_C04_keytext() {
 	verif.Assert(sameMultiset(pairs, refJoin(jt, 2, lrows, rrows, false)), "multiset")
 	verif.Reach("end")
 }
+
+// H_C04_mixedkinds: key cells of different scalar kinds (1 and '1' are equal
+// under the library's `=`, 1 and '1.0' are not): every strategy gives the
+// nested loop's answer.
+func H_C04_mixedkinds() {
+	jt := verif.Choose("type", 3)
+	strat := verif.Choose("strategy", 3)
+	cond := verif.Choose("cond", 2) * 4 // x.a = y.b | x.a < y.b
+	if strat == 2 && jt != 0 {
+		verif.Assume(false)
+	}
+	vals := []any{float64(1), "1", float64(2), "1.0", "2", true, "true"}
+	texts := []string{"1", "1", "2", "1.0", "2", "true", "true"}
+	li, lj := verif.Choose("l0", len(vals)), 2+2*verif.Choose("l1", 2) // second left row: 2 or '2'
+	ri, rj := verif.Choose("r0", len(vals)), verif.Choose("r1", len(vals))
+	if cond == 4 && (li >= 5 || lj >= 5 || ri >= 5 || rj >= 5 || strat != 0) {
+		verif.Assume(false) // ordering: numbers and numeric strings, default strategy
+	}
+	lrows := []Map{{"a": vals[li], "id": float64(0)}, {"a": vals[lj], "id": float64(1)}}
+	rrows := []Map{{"b": vals[ri], "id": float64(0)}, {"b": vals[rj], "id": float64(1)}}
+	ltx, rtx := []int{li, lj}, []int{ri, rj}
+	num := func(k int) (float64, bool) {
+		f, ok := vals[k].(float64)
+		return f, ok
+	}
+	holds := func(i, j int) bool {
+		a, b := ltx[i], rtx[j]
+		x, xn := num(a)
+		y, yn := num(b)
+		if cond == 0 {
+			if xn && yn {
+				return x == y
+			}
+			return texts[a] == texts[b]
+		}
+		if xn && yn {
+			return x < y
+		}
+		return texts[a] < texts[b]
+	}
+	got, ok := runQuery(Map{"l": []any{lrows[0], lrows[1]}, "r": []any{rrows[0], rrows[1]}}, "SELECT * FROM l x "+joinKeyword(jt, strat, false)+" r y ON "+joinConds[cond])
+	if !ok {
+		return
+	}
+	pairs, shaped := joinPairs(got, lrows, rrows)
+	verif.Assert(shaped, "row-shape")
+	if !shaped {
+		return
+	}
+	var want [][2]int
+	lm, rm := [2]bool{}, [2]bool{}
+	for i := 0; i < 2; i++ {
+		for j := 0; j < 2; j++ {
+			if holds(i, j) {
+				want = append(want, [2]int{i, j})
+				lm[i], rm[j] = true, true
+			}
+		}
+	}
+	for i := 0; i < 2; i++ {
+		if jt == 1 && !lm[i] {
+			want = append(want, [2]int{i, -1})
+		}
+		if jt == 2 && !rm[i] {
+			want = append(want, [2]int{-1, i})
+		}
+	}
+	verif.Assert(sameMultiset(pairs, want), "multiset")
+	verif.Reach("end")
+}
